@@ -27,11 +27,6 @@ Proof.
   now apply drop_rev_seg.
 Qed.
 
-Lemma str_eqb_sym a b : str_eqb a b = str_eqb b a.
-Proof.
-  revert b; induction a as [|x a IH]; intros [|y b]; cbn; try reflexivity.
-  now rewrite N.eqb_sym, IH.
-Qed.
 
 (** prefix / equality tests against a segment followed by end-of-input or "/" *)
 Lemma sw_seg p seg tail :
